@@ -123,7 +123,7 @@ claim(
 claim(
     "C14",
     "Lean 4 proof (invariants over the builder's accumulated context: declarative RefsValid / NamesValid hold of every accepted circuit) + boundary-value correspondence + pipeline oracle over the stage at which a value becomes known",
-    "Theorems C14_sound(_build/_parser), C14_sound_all, C14_names_distinct, C14_known_when_known_*, C14_checked_literal_index, C14_precedence_injected / _later prove that every circuit the builder accepts has all literal indices within 0..size-1, all literal slices with non-zero step, non-negative start and every element inside the source, every indexed or mapped thing a register or parameter, pairwise distinct names, every gate statement bound to a native gate, an earlier macro or (only without a gate set) an anonymous definition, with arity and kinds fitting; and which positions are deferred because their value is a let. The deferred positions are checked when fill_in_let rebuilds (C05) and when expand_macros calls the definition (C04); the direct oracle harness/extra_c14.py drives the real pipeline with the offending value entering as literal, let, override, macro argument, let-sized or override-sized register and requires JaqalError, and the reference qubit for valid programs.",
+    "Theorems C14_sound(_build/_parser), C14_sound_all, C14_names_distinct, C14_known_when_known_*, C14_checked_literal_index, C14_precedence_injected / _later prove that every circuit the builder accepts has all literal indices within 0..size-1, all literal slices with non-zero step, non-negative start and every element inside the source, every indexed or mapped thing a register or parameter, pairwise distinct names, every gate statement bound to a native gate, an earlier macro or (only without a gate set) an anonymous definition, with arity and kinds fitting; and which positions are deferred because their value is a let. The deferred positions are checked when fill_in_let rebuilds (C05) and when expand_macros calls the definition (C04); over the whole run model C14_run_text proves, for every text, configuration and override list with no hypothesis, that whenever the run produces a result every qubit and register argument of every gate that is serialised into a trace resolved with its index inside the size of EVERY level of its alias chain and inside the fundamental register (RefsHonoured Within; resolution succeeds exactly when the chain is in range at every level: resolveQubit_ok_iff), that the token written is the resolved qubit (no run on a different qubit), and C14_run_bad_ref_rejected that a reference which does not resolve makes the run fail with a JaqalError (never ImportError, never another class: execute_noImport); the direct oracle harness/extra_c14.py drives the real pipeline with the offending value entering as literal, let, override, macro argument, let-sized or override-sized register and requires JaqalError, and the reference qubit for valid programs.",
     COMMON_NOTE + "A literal index into a let-sized register is checked against the declared value (possible false rejection under an enlarging override; not a C14 violation).",
     "DESIGN.md §7 C14",
 )
